@@ -30,16 +30,22 @@ def hourLoopOld (s : Sched) (z : Zone) : Nat → Int → Bool → LoopOut :=
     (fun t => t + 3600)
     (fun _ t2 => hour z t2 = 0)
 
+def LoopOut.andThenOld (o : LoopOut) (wrapK k : Int → Bool → Result) : Result :=
+  match o with
+  | .fuel => .fuel
+  | .wrap t a => wrapK t a
+  | .next t a => k t a
+
 def nextFromOld (s : Sched) (z : Zone) (yearLimit : Int) : Nat → Int → Bool → Result
   | 0, _, _ => .fuel
   | f + 1, t, added =>
     if year z t > yearLimit then .zero
     else
-      (monthLoopOld s z innerFuel t added).andThen (nextFromOld s z yearLimit f) fun t a =>
-      (dayLoopOld s z innerFuel t a).andThen (nextFromOld s z yearLimit f) fun t a =>
-      (hourLoopOld s z innerFuel t a).andThen (nextFromOld s z yearLimit f) fun t a =>
-      (minuteLoop s z innerFuel t a).andThen (nextFromOld s z yearLimit f) fun t a =>
-      (secondLoop s z innerFuel t a).andThen (nextFromOld s z yearLimit f) fun t _ => .at t
+      (monthLoopOld s z innerFuel t added).andThenOld (nextFromOld s z yearLimit f) fun t a =>
+      (dayLoopOld s z innerFuel t a).andThenOld (nextFromOld s z yearLimit f) fun t a =>
+      (hourLoopOld s z innerFuel t a).andThenOld (nextFromOld s z yearLimit f) fun t a =>
+      (minuteLoop s z innerFuel t a).andThenOld (nextFromOld s z yearLimit f) fun t a =>
+      (secondLoop s z innerFuel t a).andThenOld (nextFromOld s z yearLimit f) fun t _ => .at t
 
 def nextOld (s : Sched) (z : Zone) (tn : Int) : Result :=
   let t := roundUp tn
